@@ -401,7 +401,7 @@ inline Bytes sig_alg_id(int kind, int hash_id)
 		static const char *O[] = { "", "1.2.840.113549.1.1.4", "1.2.840.113549.1.1.5", "1.2.840.113549.1.1.14", "1.2.840.113549.1.1.11", "1.2.840.113549.1.1.12", "1.2.840.113549.1.1.13" };
 		return der::seq({ der::oid(O[hash_id]), der::null() });
 	}
-	static const char *O[] = { "", "", "1.2.840.10045.4.1", "1.2.840.10045.4.3.1", "1.2.840.10045.4.3.2", "1.2.840.10045.4.3.3", "1.2.840.10045.4.3.4" };
+	static const char *O[] = { "", "1.2.840.10045.4.2", "1.2.840.10045.4.1", "1.2.840.10045.4.3.1", "1.2.840.10045.4.3.2", "1.2.840.10045.4.3.3", "1.2.840.10045.4.3.4" };
 	return der::seq({ der::oid(O[hash_id]) });
 }
 
